@@ -55,6 +55,10 @@ where
 {
     writer: Arc<Mutex<W>>,
     next_trigger: Option<Receiver<()>>,
+    #[cfg(tiny_http_verif)]
+    chain: usize,
+    #[cfg(tiny_http_verif)]
+    made: usize,
 }
 
 pub struct SequentialWriter<W>
@@ -64,6 +68,8 @@ where
     trigger: Option<Receiver<()>>,
     writer: Arc<Mutex<W>>,
     on_finish: Sender<()>,
+    #[cfg(tiny_http_verif)]
+    id: (usize, usize),
 }
 
 impl<R: Read + Send> SequentialReaderBuilder<R> {
@@ -79,6 +85,10 @@ impl<W: Write + Send> SequentialWriterBuilder<W> {
         SequentialWriterBuilder {
             writer: Arc::new(Mutex::new(writer)),
             next_trigger: None,
+            #[cfg(tiny_http_verif)]
+            chain: tiny_http_vrt::fresh_id(),
+            #[cfg(tiny_http_verif)]
+            made: 0,
         }
     }
 }
@@ -111,11 +121,17 @@ impl<W: Write + Send> Iterator for SequentialWriterBuilder<W> {
         let (tx, rx) = channel();
         let mut next_next_trigger = Some(rx);
         ::std::mem::swap(&mut next_next_trigger, &mut self.next_trigger);
+        #[cfg(tiny_http_verif)]
+        {
+            self.made += 1;
+        }
 
         Some(SequentialWriter {
             trigger: next_next_trigger,
             writer: self.writer.clone(),
             on_finish: tx,
+            #[cfg(tiny_http_verif)]
+            id: (self.chain, self.made),
         })
     }
 }
@@ -140,6 +156,8 @@ impl<W: Write + Send> Write for SequentialWriter<W> {
             v.recv().unwrap()
         }
         self.trigger = None;
+        #[cfg(tiny_http_verif)]
+        tiny_http_vrt::mark!("w.write", chain = self.id.0, k = self.id.1, len = buf.len());
 
         self.writer.lock().unwrap().write(buf)
     }
@@ -149,6 +167,8 @@ impl<W: Write + Send> Write for SequentialWriter<W> {
             v.recv().unwrap()
         }
         self.trigger = None;
+        #[cfg(tiny_http_verif)]
+        tiny_http_vrt::mark!("w.flush", chain = self.id.0, k = self.id.1);
 
         self.writer.lock().unwrap().flush()
     }
@@ -184,6 +204,8 @@ where
         if let Some(v) = self.trigger.take() {
             v.recv().ok();
         }
+        #[cfg(tiny_http_verif)]
+        tiny_http_vrt::mark!("w.drop", chain = self.id.0, k = self.id.1);
         self.on_finish.send(()).ok();
     }
 }
